@@ -115,14 +115,37 @@ def alphabet(N, reduced=False):
     ops += [("pos", p) for p in PS]
     ops += [("ori", o) for o in OS]
     ops.append(("reset",))
+    # aliasing inputs: the LIVE position array of a tree member (a view of its internal path) is passed in
+    for who in LIVE:
+        for st in ("auto", 0):
+            for r in (("s",) if reduced else ("s", "v2")):
+                ops.append(("rotlive", r, who, st))
+            ops.append(("movelive", who, st))
+        ops.append(("poslive", who))
     return ops
+
+
+LIVE = ("self", "first", "last")
+
+
+def live_member(tree, target, who):
+    sub = subtree(tree, target)
+    if who == "self" or not sub:
+        return target
+    return sub[0] if who == "first" else sub[-1]
 
 
 ANGAX = {"s": 40.0, "v2": [15.0, 35.0]}
 
 
-def apply_impl(o, op):
-    if op[0] == "move":
+def apply_impl(o, op, live=None):
+    if op[0] == "rotlive":
+        o.rotate(Rot(ROT[op[1]]), anchor=live.position, start=op[3])
+    elif op[0] == "movelive":
+        o.move(live.position, start=op[2])
+    elif op[0] == "poslive":
+        o.position = live.position
+    elif op[0] == "move":
         o.move(D[op[1]], start=op[2])
     elif op[0] == "rot":
         o.rotate(Rot(ROT[op[1]]), anchor=AN[op[2]], start=op[3])
@@ -136,10 +159,16 @@ def apply_impl(o, op):
         o.reset_path()
 
 
-def apply_model(m, op):
+def apply_model(m, op, live_value=None):
     from scipy.spatial.transform import Rotation as R
 
-    if op[0] == "move":
+    if op[0] == "rotlive":
+        m.rotate(Rot(ROT[op[1]]).as_matrix(), live_value, op[3])
+    elif op[0] == "movelive":
+        m.move(live_value, op[2])
+    elif op[0] == "poslive":
+        m.set_position(live_value)
+    elif op[0] == "move":
         m.move(D[op[1]], op[2])
     elif op[0] == "rot":
         m.rotate(Rot(ROT[op[1]]).as_matrix(), AN[op[2]], op[3])
@@ -163,7 +192,7 @@ def rel(Pc, Mc, Pd, Md):
 
 
 def opkey(op):
-    st = op[-1] if op[0] in ("move", "rot", "angax") else ""
+    st = op[-1] if op[0] in ("move", "rot", "angax", "rotlive", "movelive") else ""
     sc = "" if st == "" else ("auto" if st == "auto" else "neg" if st < 0 else "zero" if st == 0 else "pos")
     if op[0] == "rot":
         return f"rotate|rot={'scalar' if op[1]=='s' else 'vector'}|anchor={op[2]}|start={sc}"
@@ -171,6 +200,8 @@ def opkey(op):
         return f"angax|ang={'scalar' if op[1]=='s' else 'vector'}|anchor={op[2]}|start={sc}"
     if op[0] == "move":
         return f"move|{'scalar' if op[1]=='s' else 'vector'}|start={sc}"
+    if op[0] in ("rotlive", "movelive", "poslive"):
+        return f"{op[0]}|live={op[2] if op[0] == 'rotlive' else op[1]}|start={sc}"
     return op[0]
 
 
@@ -189,11 +220,16 @@ def check_transition(tree, st, target, op, want_state=True):
     if has_field:
         Bbefore = objs[target].getB(squeeze=False)
     m = PathModel(*st[target])
+    live = live_value = None
+    if op[0] in ("rotlive", "movelive", "poslive"):
+        who = live_member(tree, target, op[2] if op[0] == "rotlive" else op[1])
+        live = objs[who]
+        live_value = np.array(np.squeeze(before[who][0]), float).copy()
     try:
-        apply_impl(objs[target], op)
+        apply_impl(objs[target], op, live)
     except Exception as e:
         return [f"valid call raised {type(e).__name__}: {e}"[:160]], None, True
-    apply_model(m, op)
+    apply_model(m, op, live_value)
     problems = []
     after = {n: read(objs[n]) for n in names}
     # own path follows the path model
